@@ -565,6 +565,55 @@ def run(ctx):
     ctx.inst('C13.M1', 'fixtures/controls.cc', 'positive control nvctl::UnguardedWalk fires')
     ctx.floor('C13.M1', 18)
 
+    # ---- L1: loop progress ---------------------------------------------------------------------------------
+    R('C13.L1', 'LP', 'never hangs, position loops: in every loop whose condition compares a local position / '
+      'pointer v with a bound (v < n, v != end, v < s.size()) or tests the byte it points at (*v), each trip '
+      'around the loop leaves v strictly larger or at the bound (abstract interpretation, nv/loopprog.py); '
+      'loops the domain cannot follow are listed as undecided, not reported')
+    import loopprog
+    def lp_run(pr, fns):
+        res = []
+        for f in fns:
+            for (h, v, bound, subj, line, kind) in loopprog.position_loops(f):
+                lp = loopprog.LoopProgress(f, h, v, bound, subj)
+                verdict, detail = lp.decide()
+                res.append((f, v, bound, line, kind, verdict, detail, lp.states_seen))
+        return res
+    lres = lp_run(prog, [f for f in prog.functions.values() if not f.file.startswith('third_party')])
+    undec = []
+    for f, v, bound, line, kind, verdict, detail, ns in lres:
+        if verdict == 'undecided':
+            undec.append('%s:%s %s (%s): %s' % (f.file, line, f.name, v, detail))
+            continue
+        ctx.check('C13.L1', verdict == 'progress', f.name, 'loop-without-progress:%s' % v, 'src/%s:%s' % (f.file, line),
+                  'loop on `%s` (%s%s): every iteration advances it [%d abstract states]' % (
+                      v, kind, '' if bound is None else ', bound ' + bound[:40], ns),
+                  msg='loop on `%s` in %s can go round without advancing: %s' % (v, f.name, detail))
+    ctx.table('C13.L1.undecided', undec)
+    cres = {f.name: verdict for f, v, bound, line, kind, verdict, detail, ns in lp_run(fx, [fx.fn('nvctl::StuckLineLoop'), fx.fn('nvctl::GoodLineLoop')])}
+    if cres.get('nvctl::StuckLineLoop') != 'stuck' or cres.get('nvctl::GoodLineLoop') != 'progress':
+        raise AnalysisBroken('L1 control failed: %s' % cres)
+    ctx.inst('C13.L1', 'fixtures/controls.cc', 'controls: nvctl::StuckLineLoop is stuck, nvctl::GoodLineLoop progresses')
+    ctx.check('C13.L1', any(f.name == 'CLParser::Parse' and verdict == 'progress' for f, v, b, l, k, verdict, d, ns in lres),
+              'CLParser::Parse', 'loop:anchor', 'src/clparser.cc', 'the /showIncludes line loop is among the decided loops')
+    # input-driven loops (`for (;;)`, `while (ReadLine(..))`, `while (PeekToken(..))`): no way round the loop
+    # without a call that consumes input (a token, a line, a record, an option)
+    nid = 0
+    for f in prog.functions.values():
+        if f.file.startswith('third_party'):
+            continue
+        skip = {x[0] for x in loopprog.position_loops(f)}
+        for h, line, cb, w in loopprog.input_driven_loops(prog, f, skip):
+            nid += 1
+            ctx.check('C13.L1', w is None, f.name, 'input-loop:cycle-without-consumption', 'src/%s:%s' % (f.file, line),
+                      'every trip round the input-driven loop in %s passes a consuming call (blocks %s)' % (f.name, cb[:6]),
+                      witness=None if w is None else {'blocks': w})
+    cw = [w for h, line, cb, w in loopprog.input_driven_loops(fx, fx.fn('nvctl::SkipsRead'))]
+    if not (cw and cw[0] is not None):
+        raise AnalysisBroken('L1 input-loop control failed: %s' % cw)
+    ctx.check('C13.L1', nid >= 20, 'input-driven loops', 'input-loop:count', 'src', '%d input-driven loops examined' % nid)
+    ctx.floor('C13.L1', 66)
+
     # ---- N1 ------------------------------------------------------------------------------------------------
     R('C13.N1', 'N', 'results of functions that return null on bad input (memchr, strpbrk, getenv, '
       'fopen, LookupNode/Pool/Rule, GetDeps, LookupByOutput, Rule::GetBinding) are known non-null '
